@@ -16,7 +16,7 @@ func init() {
 	register(&Property{
 		ID:          "C17",
 		Engines:     []string{"cfg", "decide"},
-		Explanation: "Write-buffer bound, structural part: in write/writev the overflow test on the whole input size dominates every kernel write and every enqueue and its true edge returns the overflow error (O1); overflow(n) is exactly Max>0 && left+n>Max, read off its branch conditions (O2); the enqueue function adds len(buf) to the counter once on every path and flush subtracts the same SSA value by which it advances the entry offset (O3); no other function writes the counter (O4). The overflow error is a leaf error (O5). The overflow test and the enqueue are one critical section, also across callees that drop the lock (O7).",
+		Explanation: "Write-buffer bound, structural part: in write/writev the overflow test on the whole input size dominates every kernel write and every enqueue and its true edge returns the overflow error (O1); overflow(n) is exactly Max>0 && left+n>Max, read off its branch conditions (O2); the enqueue function adds len(buf) to the counter once on every path and flush subtracts the same SSA value by which it advances the entry offset (O3); no other function writes the counter (O4). The overflow error is a leaf error (O5). The overflow test and the enqueue are one critical section, also across callees that drop the lock (O7). A write that fits is accepted: error returns only on overflow / not-temporary / datagram edges (O8).",
 		NotCovered:  "the numeric invariant left = sum of unsent bytes over histories; teardown dropping queued bytes; Sendfile ranges (not held in memory, not counted by design)",
 		Run:         runC17,
 	})
